@@ -180,7 +180,7 @@ type inst struct {
 	intObj  map[*ast.Object]bool // locals provably of an integer type
 	helper  bool                 // an inlined callee: its `return` does not leave the analysed function
 	depth   int
-	names   map[string]string // canonical name -> source name (for the comment in the generated file)
+	names   map[string]string         // canonical name -> source name (for the comment in the generated file)
 	declPos map[*ast.Object]token.Pos // first occurrence = declaration
 }
 
